@@ -268,11 +268,27 @@ struct C12 : Scenario {
 			Member tail = gen_file(rng, (int) rng.below(4), "", gen_name(rng, 5), o);
 			p.members.push_back(tail);
 		}
+		// the common header may carry information bytes behind its CRC
+		for (auto &mm : p.members)
+			for (auto &e : mm.ext)
+				if (e.type == 0 && e.auto_crc && rng.chance(1, 3)) { size_t extra = 1 + rng.below(4); for (size_t k = 0; k < extra; ++k) e.data.push_back(rng.byte()); }
+		// one run in five: the header under test is the very first thing in the stream (what the search for the first
+		// header does with a damaged one is then part of the question)
+		if (rng.chance(1, 5)) { p.members.erase(p.members.begin()); p.seti("target", 0); }
 		Task t;
 		for (int i = 0; i < 4; ++i) { Op n; n.kind = "next"; t.ops.push_back(n); }
 		p.tasks.push_back(t);
 		return p;
 	}
+	// does the search for the first header take these bytes for a header at all? (lib/lha_input_stream.c: file_header_match)
+	static bool looks_like_header(const uint8_t *b, size_t n) {
+		if (n < 7 || b[2] != '-' || b[6] != '-') return false;
+		if (b[3] == 'l' && b[4] == 'h') return true;
+		if (b[3] == 'l' && b[4] == 'z' && (b[5] == '4' || b[5] == '5' || b[5] == 's')) return true;
+		if (b[3] == 'p' && b[4] == 'm' && b[5] != 's') return true;
+		return false;
+	}
+	size_t ti = 1;   // index of the member under test
 	// evaluates one faulted archive; returns false on violation
 	bool eval(const Plan &p, const Bytes &arch, size_t hstart, int kind_idx, const std::string &what, RunResult &res,
 	          Plan *narrowed, const Patch *q, int64_t trunc, uint64_t &nfail, uint64_t &npass, Fnv &acc, int64_t afail = -1) {
@@ -287,8 +303,11 @@ struct C12 : Scenario {
 		o.budget = 4096 + 8 * arch.size();
 		if (afail >= 0) { o.ledger = true; o.fail_alloc = afail; }
 		DriveOut d = drive_reader(t, arch, o);
-		bool returned = d.obs.size() > 1 && !d.obs[1].hdr.null;
-		bool later = (d.obs.size() > 2 && !d.obs[2].hdr.null) || (d.obs.size() > 3 && !d.obs[3].hdr.null);
+		// first in the stream: bytes the header search does not recognise are skipped like any self-extractor code, and
+		// what follows them is found - nothing to assert then
+		if (ti == 0 && !looks_like_header(arch.data() + hstart, n - hstart)) return true;
+		bool returned = d.obs.size() > ti && !d.obs[ti].hdr.null;
+		bool later = (d.obs.size() > ti + 1 && !d.obs[ti + 1].hdr.null) || (d.obs.size() > ti + 2 && !d.obs[ti + 2].hdr.null);
 		acc.u64(why.empty() ? 0 : 1);
 		acc.u64(returned);
 		auto narrow = [&]() {
@@ -302,7 +321,7 @@ struct C12 : Scenario {
 			narrowed->tasks[0].kind = t.kind;
 		};
 		if (d.budget) { res.fail("C12.budget", "budget", what + ": next_file did not return within the step budget"); narrow(); return false; }
-		if (d.obs.empty() || d.obs[0].hdr.null) return true;   // the first member itself was not readable: nothing to assert
+		if (ti == 1 && (d.obs.empty() || d.obs[0].hdr.null)) return true;   // the first member itself was not readable: nothing to assert
 		if (d.c11_bad) { res.fail("C11.invariant", "c11", d.c11_why); narrow(); return false; }
 		if (!why.empty()) {
 			++nfail;
@@ -311,7 +330,7 @@ struct C12 : Scenario {
 				std::string rule = why;
 				for (auto &ch : rule) if (ch == ' ') ch = '_';
 				res.fail("C12.returned_bad_header", "returned:" + rule,
-				         what + ": the header fails its own integrity data (" + why + ") but was returned: " + d.obs[1].hdr.str());
+				         what + ": the header fails its own integrity data (" + why + ") but was returned: " + d.obs[ti].hdr.str());
 				narrow();
 				return false;
 			}
@@ -328,10 +347,11 @@ struct C12 : Scenario {
 		RunResult res;
 		uint64_t nfail = 0, npass = 0, evals = 0;
 		Fnv acc;
-		if (p.members.size() < 2 || p.tasks.empty()) return res;
+		ti = (size_t) p.geti("target", 1);
+		if (p.members.size() < ti + 1 || p.tasks.empty()) return res;
 		if (p.scenario == "single") {
 			BuiltArchive a = build_archive(p);
-			size_t hs = a.layout[1].start;
+			size_t hs = a.layout[ti].start;
 			Task t0 = p.tasks[0];
 			static const char *kinds[] = {"FILE_SEEK", "FILE_PIPE", "FILE_HALFSEEK", "CB_SKIP", "CB_NOSKIP"};
 			int ki = 0;
@@ -344,7 +364,7 @@ struct C12 : Scenario {
 		Plan clean = p;
 		clean.patches.clear();
 		BuiltArchive a = build_archive(clean);
-		const MemberLayout &L = a.layout[1];
+		const MemberLayout &L = a.layout[ti];
 		size_t hs = L.start;
 		g_sim.tracing = false;
 		int ki = (int)(p.run % 5);
@@ -360,7 +380,7 @@ struct C12 : Scenario {
 			for (unsigned v = 0; v < 256 && res.ok; ++v) {
 				if (v == orig) continue;
 				work[hs + pos] = (uint8_t) v;
-				Patch q; q.member = 1; q.off = (uint32_t) pos; q.op = '='; q.val = {(uint8_t) v};
+				Patch q; q.member = (int) ti; q.off = (uint32_t) pos; q.op = '='; q.val = {(uint8_t) v};
 				++evals;
 				eval(p, work, hs, ki++, strf("byte %zu := %02x", pos, v), res, narrowed, &q, -1, nfail, npass, acc);
 			}
@@ -389,7 +409,7 @@ struct C12 : Scenario {
 			for (uint64_t nv : vals) {
 				nv &= maxv;
 				if (nv == cur || !res.ok) continue;
-				Patch q; q.member = 1; q.off = (uint32_t) fd.off; q.op = '=';
+				Patch q; q.member = (int) ti; q.off = (uint32_t) fd.off; q.op = '=';
 				for (size_t i = 0; i < fd.len; ++i) q.val.push_back((uint8_t)(nv >> (8 * i)));
 				Bytes w = a.bytes;
 				for (size_t i = 0; i < fd.len; ++i) w[hs + fd.off + i] = q.val[i];
@@ -405,7 +425,7 @@ struct C12 : Scenario {
 			unsigned vals[] = {0x0000, 0xffff, ((cur & 0xff) << 8) | (cur >> 8), (cur + 1) & 0xffff, (cur ^ 0x8001) & 0xffff, (~cur) & 0xffff};
 			for (unsigned nv : vals) {
 				if (nv == cur || !res.ok) continue;
-				Patch q; q.member = 1; q.off = (uint32_t) co; q.op = '='; q.val = {(uint8_t)(nv & 0xff), (uint8_t)(nv >> 8)};
+				Patch q; q.member = (int) ti; q.off = (uint32_t) co; q.op = '='; q.val = {(uint8_t)(nv & 0xff), (uint8_t)(nv >> 8)};
 				Bytes w = a.bytes;
 				w[hs + co] = q.val[0]; w[hs + co + 1] = q.val[1];
 				++evals;
@@ -430,7 +450,7 @@ struct C12 : Scenario {
 				if (pos >= L.hdr_len) continue;
 				Bytes w = a.bytes;
 				w[hs + pos] ^= (uint8_t)(1u << (pos % 8));
-				Patch q; q.member = 1; q.off = (uint32_t) pos; q.op = '='; q.val = {w[hs + pos]};
+				Patch q; q.member = (int) ti; q.off = (uint32_t) pos; q.op = '='; q.val = {w[hs + pos]};
 				if (integrity_fail(w.data() + hs, w.size() - hs).empty()) continue;
 				for (int64_t k = 0; k < 10 && res.ok; ++k) {
 					++evals;
@@ -444,8 +464,9 @@ struct C12 : Scenario {
 		g_sim.counters["evals"] = evals;
 		count("probe.checker_says_fail", nfail);
 		count("probe.checker_passes", npass);
-		count(strf("kind.level.%d", p.members[1].level));
-		count(std::string("kind.entry.") + p.members[1].kind);
+		count(strf("kind.level.%d", p.members[ti].level));
+		count(std::string("kind.entry.") + p.members[ti].kind);
+		if (ti == 0) count("kind.header_first_in_stream");
 		res.ops = evals;
 		res.nontrivial = nfail > 0 && npass > 0;
 		trace_u64(acc.h);
